@@ -8,6 +8,7 @@ mod prog;
 mod progcheck;
 mod spaces;
 mod refmodel;
+mod selftest;
 mod shapes;
 
 use common::*;
@@ -20,6 +21,31 @@ pub struct Explored {
     pub rule: String,
     pub exhaustive: bool,
     pub assumptions: Vec<String>,
+}
+
+fn explore_by_id(id: &str, opts: &Opts) -> Explored {
+    match id {
+        "C01" => checks::c01::explore(opts),
+        "C02" => checks::c02::explore(opts),
+        "C03" => checks::c03::explore(opts),
+        "C04" => checks::c04::explore(opts),
+        "C05" => checks::c05::explore(opts),
+        "C06" => checks::c06::explore(opts),
+        "C07" => checks::c07::explore(opts),
+        "C08" => checks::c08::explore(opts),
+        "C09" => checks::c09::explore(opts),
+        "C10" => checks::c10::explore(opts),
+        "C11" => checks::c11::explore(opts),
+        "C12" => checks::c12::explore(opts),
+        "C13" => checks::c13::explore(opts),
+        "C14" => checks::c14::explore(opts),
+        "C15" => checks::c15::explore(opts),
+        "C16" => checks::c16::explore(opts),
+        "C17" => checks::c17::explore(opts),
+        "C18" => checks::c18::explore(opts),
+        "C19" => checks::c19::explore(opts),
+        _ => usage(),
+    }
 }
 
 fn usage() -> ! {
@@ -70,33 +96,59 @@ fn main() {
         std::panic::set_hook(Box::new(|_| {}));
     }
     let opts = Opts { id: id.clone(), tier, seed, only, threads, verbose };
-    let start = Instant::now();
-    let ex = match id.as_str() {
-        "C01" => checks::c01::explore(&opts),
-        "C02" => checks::c02::explore(&opts),
-        "C03" => checks::c03::explore(&opts),
-        "C04" => checks::c04::explore(&opts),
-        "C05" => checks::c05::explore(&opts),
-        "C06" => checks::c06::explore(&opts),
-        "C07" => checks::c07::explore(&opts),
-        "C08" => checks::c08::explore(&opts),
-        "C09" => checks::c09::explore(&opts),
-        "C10" => checks::c10::explore(&opts),
-        "C11" => checks::c11::explore(&opts),
-        "C12" => checks::c12::explore(&opts),
-        "C13" => checks::c13::explore(&opts),
-        "C14" => checks::c14::explore(&opts),
-        "C15" => checks::c15::explore(&opts),
-        "C16" => checks::c16::explore(&opts),
-        "C17" => checks::c17::explore(&opts),
-        "C18" => checks::c18::explore(&opts),
-        "C19" => checks::c19::explore(&opts),
-        _ => usage(),
+    // the reference model is validated before it is believed (fixtures + finite differences)
+    let selftest_n = match selftest::run() {
+        Ok(n) => n,
+        Err(errs) => {
+            for e in errs.iter().take(20) {
+                eprintln!("SELFTEST: {}", e);
+            }
+            machinery_error("the reference model failed its own validation");
+        }
     };
+    if id == "selftest" {
+        println!("selftest ok: {} reference-model obligations (fixtures from corgi's tests, forward mode vs finite differences)", selftest_n);
+        std::process::exit(0);
+    }
+    let start = Instant::now();
+    let mut history_dependent: Vec<String> = Vec::new();
+    let ex = explore_by_id(&id, &opts);
+    // determinism: every reported violation must fail again when its case is re-executed alone
+    if opts.only.is_none() && !ex.local.violations.is_empty() {
+        let mut seen = std::collections::BTreeSet::new();
+        let mut sorted: Vec<&Violation> = ex.local.violations.iter().collect();
+        sorted.sort_by(|a, b| (a.case.len(), &a.case).cmp(&(b.case.len(), &b.case)));
+        for v in sorted {
+            if !seen.insert(v.case.clone()) {
+                continue;
+            }
+            if seen.len() > 3 {
+                break;
+            }
+            let mut o = opts.clone();
+            o.only = Some(v.case.clone());
+            let again = explore_by_id(&id, &o);
+            if !again.local.violations.iter().any(|w| w.case == v.case) {
+                // not reproducible in isolation: either the library keeps hidden state across calls
+                // (then the same full exploration fails the same way again), or the harness is flaky
+                let full = explore_by_id(&id, &opts);
+                if full.local.violations.iter().any(|w| w.case == v.case) {
+                    history_dependent.push(v.case.clone());
+                } else {
+                    machinery_error(&format!("violation neither reproduced alone nor in a second full run (nondeterminism): {}", v.case));
+                }
+                break;
+            }
+        }
+    }
+    for c in &history_dependent {
+        println!("NOTE: the violation of case `{}` reproduces in a second full exploration but not when the case is executed alone: the library's result depends on state left behind by earlier calls in the same thread", c);
+    }
     let mut fin = Finish::new(&opts, start, ex.local);
     fin.bounds = ex.bounds;
     fin.rule = ex.rule;
     fin.exhaustive = ex.exhaustive;
     fin.assumptions = ex.assumptions;
+    fin.extra.insert("reference_model_selftest_obligations".to_string(), serde_json::json!(selftest_n));
     std::process::exit(fin.finish());
 }
